@@ -304,7 +304,8 @@ theorem read_sync_layout {α : Type} [Sub α] [LT α] [DecidableLT α] [LE α] [
     (conv : Int → Int → α) (pct : List (List α) → Option (List α)) (toI8 : α → Int)
     (mn ma xa ntr : Nat) (rows : List (List Int)) (thr : α) (floor : Bool) (P : List α)
     (hntr : mn + ma + xa + 1 = ntr) (hrows : ∀ r ∈ rows, r.length = ntr)
-    (hpct : floor = true → pct (rows.map (analogVolts conv mn ma xa)) = some P) (hP : P.length = xa) :
+    (hpct : floor = true → rows ≠ [] → pct (rows.map (analogVolts conv mn ma xa)) = some P)
+    (hP : P.length = xa) :
     readSync conv pct toI8 ntr (.nidq mn ma xa 1) rows thr floor =
       .ok (rows.map fun r => digitalLines ntr r ++ analogLines conv toI8 mn ma xa thr floor P r) ∧
     (∀ r, (digitalLines ntr r).length = 16 ∧
@@ -321,13 +322,14 @@ theorem read_sync_layout_imec {α : Type} [Sub α] [LT α] [DecidableLT α] [LE 
     readSync conv pct toI8 ntr (.imec ap lf 1) rows thr floor = .ok (rows.map (digitalLines ntr)) :=
   readSync_imec conv pct toI8 ap lf ntr rows thr floor htyp hntr hrows
 
-/-- Known finding `read-sync-empty-selection`, as a theorem about the model: when `np.percentile` raises on an
-empty selection (NumPy ≥ 2), `read_sync` of zero samples of a nidq stream with analog lines raises `IndexError`
-instead of returning zero rows.  `read_sync_layout` excludes the case through its hypothesis `hpct`. -/
-theorem read_sync_empty_counterexample :
-    readSync (α := Int) (fun _ x => x) (fun m => if m.isEmpty then none else some [0]) (fun v => v)
-      2 (.nidq 0 0 1 1) [] 1 true = .error .indexError :=
-  readSync_empty_raises _ _ _ 0 0 1 2 1 (by omega) rfl
+/-- Zero selected samples (e.g. `slice(ns, ns + 10000)`, `slice(k, k)`) give zero rows on every nidq stream, with or
+without analog lines and floor, even when `np.percentile` would raise on an empty input (`pct` arbitrary): the
+behaviour after the `fix:` commit that guards the floor removal with `analog.size`. -/
+theorem read_sync_empty_selection {α : Type} [Sub α] [LT α] [DecidableLT α] [LE α] [DecidableLE α] [OfNat α 0]
+    [OfNat α 1] (conv : Int → Int → α) (pct : List (List α) → Option (List α)) (toI8 : α → Int)
+    (mn ma xa ntr : Nat) (thr : α) (floor : Bool) :
+    readSync conv pct toI8 ntr (.nidq mn ma xa 1) [] thr floor = .ok [] :=
+  readSync_empty conv pct toI8 mn ma xa ntr thr floor
 
 /-- Known finding `read-sync-no-meta`, as a theorem about the model: a reader opened without meta data cannot
 read the sync trace at all (`_get_sync_trace_indices_from_meta(None)`), whatever the samples. -/
@@ -353,7 +355,8 @@ theorem ttl_recovered {α : Type} [Sub α] [LT α] [DecidableLT α] [LE α] [Dec
     (conv : Int → Int → α) (pct : List (List α) → Option (List α)) (toI8 : α → Int)
     (mn ma xa ntr : Nat) (rows : List (List Int)) (thr : α) (floor : Bool) (P : List α)
     (hntr : mn + ma + xa + 1 = ntr) (hrows : ∀ r ∈ rows, r.length = ntr)
-    (hpct : floor = true → pct (rows.map (analogVolts conv mn ma xa)) = some P) (hP : P.length = xa)
+    (hpct : floor = true → rows ≠ [] → pct (rows.map (analogVolts conv mn ma xa)) = some P)
+    (hP : P.length = xa)
     (n : Nat) (train : Nat → Nat → Bool)
     (hsync : rows.map (fun r => r.getD (ntr - 1) 0) = recordTTL n train) :
     ∃ sync, readSync conv pct toI8 ntr (.nidq mn ma xa 1) rows thr floor = .ok sync ∧ sync.length = n ∧
